@@ -1,48 +1,73 @@
 """C11 — Facility messages faithfully encode the sensor input they were built from.
 
 Theorems: lean/Props/C11.lean about lean/FlexModel/Fac/Mapping.lean (report -> data-element mappings on exact
-rationals, GenerationDeltaTime arithmetic), ASN.1 ranges/special codes regenerated into Generated/Asn1Ranges.lean.
-Tie, per generated report and message kind (CAM, VAM, DENM event position):
-  (a) the dict produced by the real builders is compared field by field with the model fed the exact rational
-      (fractions.Fraction) of every double the code truncates / compares;
-  (b) the message goes through the real sending path (transmission management -> capturing BTP router), the payload is
-      decoded with the repository's UPER coder and compared with the intended values (silent wrapping shows here);
-  (c) generation must neither raise nor skip the message.
+rationals, GenerationDeltaTime arithmetic and clock readings, vehicle-role table and the send state an encoding
+failure leaves untouched, the report cache of the CAM transmission management and the event position of the
+emergency-vehicle service over HISTORIES of reports, the cluster information container under the clustering lock);
+guards / operators / tables / structural facts regenerated from the source (Generated/FacConstants.lean,
+Generated/FacC11.lean), ASN.1 ranges and named numbers from the repo's ASN.1 text (Generated/Asn1Ranges.lean).
+
+Tie (all on the real code, in process):
+  (a) builders vs model, field by field, on the exact Fractions of every double the code truncates / compares;
+  (b) every message goes through the real sending path (transmission management -> capturing BTP router), the payload is
+      decoded with the repository's UPER coder; the WHOLE decoded message is compared with the dict handed to the
+      encoder (silent wrapping / dropped components show here) and the report-derived fields with the intended values;
+  (c) generation must neither raise nor skip the message;
+  (d) histories: several reports with varying field subsets on ONE transmission management / ONE service, each message
+      compared with the model run on the same history and judged against the report it was built from;
+  (e) all 16 vehicle roles x several generation attempts on one transmission management vs the model's send state;
+  (f) generationDeltaTime: real from_timestamp / as_timestamp_in_certain_point vs model and vs the integer definition
+      (ages 0, 1, 65535, random; gdt 0 / 65535; three eras), and the real reception managements fed the captured
+      payload at generation time + age;
+  (f') the Lean model of asn1tools' constrained-INTEGER encoding against asn1tools (synthetic SEQUENCE with the data
+      elements' ranges; in-range values and values above the constraint);
+  (g) the cluster information container built while another thread completes a cluster break-up / switches the VRU
+      role off, under harness/dsched.py (all schedules up to a pre-emption bound), outcomes compared with the model's.
 Oracle: `oracle_fields` — the CDD definitions of each data element (TS 102 894-2), applied to the DECODED payload.
 """
 from __future__ import annotations
 
 import datetime
 import logging
-import math
+import random as _random
 from fractions import Fraction
 
 from common import Infra, corpus
 import realstack as rs
+import dsched
 
 import flexstack.facilities.ca_basic_service.cam_transmission_management as ctm
+import flexstack.facilities.ca_basic_service.cam_reception_management as crm
 import flexstack.facilities.vru_awareness_service.vam_transmission_management as vtm
+import flexstack.facilities.vru_awareness_service.vam_reception_management as vrm
+import flexstack.facilities.vru_awareness_service.vru_clustering as vcl
 import flexstack.facilities.decentralized_environmental_notification_service.denm_transmission_management as dtm
 from flexstack.facilities.ca_basic_service.cam_coder import CAMCoder
 from flexstack.facilities.vru_awareness_service.vam_coder import VAMCoder
 from flexstack.facilities.decentralized_environmental_notification_service.denm_coder import DENMCoder
 from flexstack.applications.road_hazard_signalling_service.emergency_vehicle_approaching_service import (
     EmergencyVehicleApproachingService)
+from flexstack.btp.service_access_point import BTPDataIndication
 
 MODULES = ["Props.C11"]
 DRIVERS = ["Mapping"]
 TRUSTED = [
     "modelled rather than verified: the double-precision products lat*1e7, lon*1e7, altHAE*100, track*10, speed*100, "
-    "epx*100, epd*10 (the model receives their exact rational values and is assumed monotone in the factor), asn1tools "
-    "UPER (every payload is decoded and compared), dateutil parsing",
-    "the cluster information / operation containers of the VRU service are covered by C18 (vru_clustering.py), not here",
+    "epx*100, epd*10, t*1e6 (the model receives their exact rational values; monotonicity of e -> e*100 / e*10 and the "
+    "half-microsecond band of t*1e6 are explicit hypotheses of the theorems), asn1tools UPER (no encoder model: every "
+    "payload is decoded and the whole message compared with the dict handed to the encoder), dateutil parsing",
+    "mutual exclusion of `with self._lock` sections (Python RLock) - the interleaving model treats a lock section as one step; "
+    "harness/dsched.py (schedule exploration of the real threads)",
+    "the cluster state machine itself (when a VRU is leader / passive, cardinality bookkeeping) is C18's subject; C11 covers "
+    "the container values and that the container is a consistent snapshot",
 ]
 ASSUMPTIONS = [
     "reports within the stated ranges: lat -90..90, lon -180..180, altHAE -1000..10000 m, speed 0..200 m/s, track 0..360, "
-    "epx/epy/epv/epd 0..hundreds, finite numbers; every subset of the optional fields",
+    "epx/epy/epv/epd 0..hundreds, finite numbers; every subset of these nine optional fields",
+    "every report carries `time` (the instant generationDeltaTime encodes; a TPV without time has no fix); the receiver's "
+    "clock is not behind the generation instant (reception instant r with g <= r < g + 65536 ms)",
     "resolution clause read as |encoded - scaled measurement| < 1 unit (the code truncates, the CDD rounds up)",
-    "semiMajorAxisOrientation is always written as 0 by the builders (the axis is chosen, not its orientation); "
-    "orientation is not judged",
+    "DENM: the event position is the report-derived part; the other DENM components are compared built-vs-decoded only",
 ]
 
 ITS_EPOCH_MS = 1072915200000
@@ -50,8 +75,16 @@ LEAP_MS = 5000
 ALT_LADDER = [(0.01, "alt-000-01"), (0.02, "alt-000-02"), (0.05, "alt-000-05"), (0.1, "alt-000-10"), (0.2, "alt-000-20"),
               (0.5, "alt-000-50"), (1, "alt-001-00"), (2, "alt-002-00"), (5, "alt-005-00"), (10, "alt-010-00"),
               (20, "alt-020-00"), (50, "alt-050-00"), (100, "alt-100-00"), (200, "alt-200-00")]   # TS 102 894-2 AltitudeConfidence
+# TS 102 894-2 VehicleRole (V2.x), value = index
+CDD_VEHICLE_ROLES = ["default", "publicTransport", "specialTransport", "dangerousGoods", "roadWork", "rescue", "emergency",
+                     "safetyCar", "agriculture", "commercial", "military", "roadOperator", "taxi", "uvar", "rfu1", "rfu2"]
 KEYS = ["lat", "lon", "altHAE", "epx", "epy", "epv", "epd", "track", "speed"]
 EPS = 1e-6
+T0 = 1_700_000_000_000
+
+# known finding (pinned by the repository's tests, see known_findings.d/C11.json)
+DENM_DROPPED_KEYS = {"relevanceDistance", "relevanceTrafficDirection", "TransmissionInterval"}
+F_DENM_KEYS = "C11-F11"
 
 
 def iso(ms):
@@ -98,10 +131,10 @@ def oracle_fields(kind, tpv, dec):
         elif a not in (800000, -100000):
             bad += scaled_ok(a, x, "altitude")
     elif dec["alt"] != 800001:
-        bad.append(f"altitude: absent but encoded {dec['alt']}")
+        bad.append(f"altitude: absent in the report but encoded {dec['alt']} (unavailable is 800001)")
     if kind == "denm":
         return bad
-    # altitude confidence ladder
+    # altitude confidence (CDD: class k "equal to or less than" k "and greater than" the previous bound; outOfRange > 200)
     if "epv" in tpv:
         e = tpv["epv"]
         c = dec["altconf"]
@@ -109,17 +142,17 @@ def oracle_fields(kind, tpv, dec):
         if c == "unavailable":
             bad.append(f"altitudeConfidence: epv {e} encoded as unavailable")
         elif c == "outOfRange":
-            if e < 200:
+            if e <= 200:
                 bad.append(f"altitudeConfidence: epv {e} <= 200 m encoded as outOfRange")
         else:
             k = bounds[c]
             tighter = [kk for kk, _ in ALT_LADDER if kk < k]
             if e > k:
                 bad.append(f"altitudeConfidence: {c} claims <= {k} m for epv {e}")
-            elif tighter and e < max(tighter):
-                bad.append(f"altitudeConfidence: {c} for epv {e}, a tighter class applies")
+            elif tighter and e <= max(tighter):
+                bad.append(f"altitudeConfidence: {c} for epv {e}, the tighter class (<= {max(tighter)} m) applies")
     elif dec["altconf"] != "unavailable":
-        bad.append(f"altitudeConfidence: absent but {dec['altconf']}")
+        bad.append(f"altitudeConfidence: absent in the report but {dec['altconf']}")
     # heading value (0.1 deg, 0..3599; 3600 shall not be used; 3601 unavailable)
     if "track" in tpv:
         h = dec["heading"]
@@ -130,7 +163,7 @@ def oracle_fields(kind, tpv, dec):
             if min(d, 3600 - d) >= 1.0 + EPS:
                 bad.append(f"heading: track {tpv['track']} encoded as {h}")
     elif dec["heading"] != 3601:
-        bad.append(f"heading: absent but encoded {dec['heading']}")
+        bad.append(f"heading: absent in the report but encoded {dec['heading']} (unavailable is 3601)")
     # heading confidence (0.1 deg, 1..125; 126 outOfRange > 12.5; 127 unavailable)
     if "epd" in tpv:
         c = dec["hconf"]
@@ -142,7 +175,7 @@ def oracle_fields(kind, tpv, dec):
         elif abs(c - tpv["epd"] * 10) >= 1.0 + EPS and not (c == 1 and tpv["epd"] * 10 < 1):
             bad.append(f"headingConfidence: epd {tpv['epd']} encoded as {c}")
     elif dec["hconf"] != 127:
-        bad.append(f"headingConfidence: absent but encoded {dec['hconf']}")
+        bad.append(f"headingConfidence: absent in the report but encoded {dec['hconf']} (unavailable is 127)")
     # speed (0.01 m/s; 16382 for > 163.81 m/s; 16383 unavailable)
     if "speed" in tpv:
         x = tpv["speed"] * 100
@@ -157,8 +190,9 @@ def oracle_fields(kind, tpv, dec):
         elif v != 16382:
             bad += scaled_ok(v, x, "speed")
     elif dec["speed"] != 16383:
-        bad.append(f"speed: absent but encoded {dec['speed']}")
-    # position confidence ellipse (1 cm; 1..4093; 4094 outOfRange; 4095 unavailable; 0 doNotUse)
+        bad.append(f"speed: absent in the report but encoded {dec['speed']} (unavailable is 16383)")
+    # position confidence ellipse (1 cm; 1..4093; 4094 outOfRange; 4095 unavailable; 0 doNotUse); epy = north-south
+    # (latitude) error, epx = east-west: orientation of the major axis 0 resp. 900 (0.1 deg from north)
     if "epx" in tpv and "epy" in tpv:
         mj, mn = dec["major"], dec["minor"]
         if mj < mn:
@@ -174,8 +208,15 @@ def oracle_fields(kind, tpv, dec):
                 bad.append(f"ellipse: representable {nm} {e} m encoded as outOfRange")
             elif val != 4094 and abs(val - x) >= 1.0 + EPS and not (val == 1 and x < 1):
                 bad.append(f"ellipse: {nm} {e} m encoded as {val}")
-    elif (dec["major"], dec["minor"]) != (4095, 4095):
-        bad.append(f"ellipse: epx/epy absent but encoded {dec['major']}/{dec['minor']}")
+        if mj != mn:       # (a circle has no major axis)
+            want = 0 if tpv["epy"] > tpv["epx"] else 900
+            if dec["orient"] != want:
+                bad.append(f"ellipse: major axis is {'north-south' if want == 0 else 'east-west'} (epx {tpv['epx']} m east-west, "
+                           f"epy {tpv['epy']} m north-south) but semiMajorAxisOrientation is {dec['orient']}")
+        elif not 0 <= dec["orient"] <= 3599:
+            bad.append(f"ellipse: semiMajorAxisOrientation {dec['orient']} for available axes")
+    elif (dec["major"], dec["minor"], dec["orient"]) != (4095, 4095, 3601):
+        bad.append(f"ellipse: epx/epy absent in the report but encoded {dec['major']}/{dec['minor']}/{dec['orient']} (unavailable is 4095/4095/3601)")
     return bad
 
 
@@ -190,17 +231,65 @@ class Cap:
     def btp_data_request(self, request):
         self.sent.append(request)
 
+    def register_indication_callback_btp(self, port, callback):
+        pass
+
+
+class RecCoder:
+    """the repository's coder; remembers (a normalised copy of) the dict handed to `encode`"""
+
+    def __init__(self, real):
+        self.real, self.last = real, None
+
+    def encode(self, d):
+        self.last = norm(d)          # structural copy (CHOICE tuples -> lists, bytes -> hex) taken BEFORE encoding
+        return self.real.encode(d)
+
+    def __getattr__(self, n):
+        return getattr(self.real, n)
+
+
+def norm(x):
+    if isinstance(x, dict):
+        return {k: norm(v) for k, v in x.items()}
+    if isinstance(x, (list, tuple)):
+        return [norm(v) for v in x]
+    if isinstance(x, (bytes, bytearray)):
+        return bytes(x).hex()
+    return x
+
+
+def tree_diff(a, b, path=""):
+    """differences between the dict handed to the encoder and the decoded payload: [(path, text)]"""
+    out = []
+    if isinstance(a, dict) and isinstance(b, dict):
+        for k in sorted(set(a) | set(b)):
+            if k not in a:
+                out.append((f"{path}/{k}", f"{path}/{k}: not in the message built, decoded {b[k]!r}"))
+            elif k not in b:
+                out.append((f"{path}/{k}", f"{path}/{k}: built {a[k]!r}, missing from the decoded payload (dropped by the encoder)"))
+            else:
+                out += tree_diff(a[k], b[k], f"{path}/{k}")
+    elif isinstance(a, list) and isinstance(b, list) and len(a) == len(b):
+        for i, (x, y) in enumerate(zip(a, b)):
+            out += tree_diff(x, y, f"{path}[{i}]")
+    elif a != b:
+        out.append((path, f"{path}: built {a!r}, the payload decodes to {b!r}"))
+    return out
+
 
 def fields_cam(d):
     p = d["cam"]["camParameters"]
     rp = p["basicContainer"]["referencePosition"]
     hf = p["highFrequencyContainer"][1]
     e = rp["positionConfidenceEllipse"]
+    lf = p.get("lowFrequencyContainer")
     return {"lat": rp["latitude"], "lon": rp["longitude"], "major": e["semiMajorAxisLength"], "minor": e["semiMinorAxisLength"],
             "orient": e["semiMajorAxisOrientation"], "alt": rp["altitude"]["altitudeValue"],
             "altconf": rp["altitude"]["altitudeConfidence"], "heading": hf["heading"]["headingValue"],
             "hconf": hf["heading"]["headingConfidence"], "speed": hf["speed"]["speedValue"],
-            "gdt": d["cam"]["generationDeltaTime"], "stype": p["basicContainer"]["stationType"]}
+            "gdt": d["cam"]["generationDeltaTime"], "stype": p["basicContainer"]["stationType"],
+            "role": (lf[1]["vehicleRole"] if lf else None)}
 
 
 def fields_vam(d):
@@ -212,7 +301,7 @@ def fields_vam(d):
             "orient": e["semiMajorAxisOrientation"], "alt": rp["altitude"]["altitudeValue"],
             "altconf": rp["altitude"]["altitudeConfidence"], "heading": hf["heading"]["value"],
             "hconf": hf["heading"]["confidence"], "speed": hf["speed"]["speedValue"],
-            "gdt": d["vam"]["generationDeltaTime"], "stype": p["basicContainer"]["stationType"]}
+            "gdt": d["vam"]["generationDeltaTime"], "stype": p["basicContainer"]["stationType"], "role": None}
 
 
 def fields_denm(d):
@@ -220,6 +309,7 @@ def fields_denm(d):
     return {"lat": ep["latitude"], "lon": ep["longitude"], "alt": ep["altitude"]["altitudeValue"]}
 
 
+FIELDS = {"cam": fields_cam, "vam": fields_vam, "denm": fields_denm}
 ORDER = ["lat", "lon", "major", "minor", "orient", "alt", "altconf", "heading", "hconf", "speed"]
 
 
@@ -234,84 +324,103 @@ def fr(x):
     return str(f.numerator) if f.denominator == 1 else f"{f.numerator}/{f.denominator}"
 
 
-def model_line(kind, tpv):
+def report_tokens(tpv):
     def one(key, mult=None):
         if key not in tpv:
             return "-"
         return fr(tpv[key] if mult is None else tpv[key] * mult)   # the double product, exactly
-    both = "epx" in tpv and "epy" in tpv
-    return " ".join(["msg", kind, one("lat", 10000000), one("lon", 10000000), one("altHAE", 100),
-                     one("epx") if both else "-", one("epx", 100) if both else "-",
-                     one("epy") if both else "-", one("epy", 100) if both else "-",
-                     one("epv"), one("epd"), one("epd", 10), one("track", 10), one("speed", 100)])
+    return " ".join([one("lat", 10000000), one("lon", 10000000), one("altHAE", 100), one("epx"), one("epx", 100),
+                     one("epy"), one("epy", 100), one("epv"), one("epd"), one("epd", 10), one("track", 10), one("speed", 100)])
 
 
-class Stack:
-    """the three real sending paths with capturing routers"""
+def model_line(kind, tpv):
+    return f"msg {kind} " + report_tokens(tpv)
 
-    def __init__(self):
-        self.cam_coder, self.vam_coder, self.denm_coder = CAMCoder(), VAMCoder(), DENMCoder()
-        for n in ("ca_basic_service", "vru_basic_service", "denm_service"):
-            logging.getLogger(n).setLevel(logging.CRITICAL + 10)
 
-    @staticmethod
-    def _decoded(built, fields, coder, payload):
+class Msg:
+    """one message handed to BTP (or the failure to produce it)"""
+    __slots__ = ("built", "dec", "err", "diffs", "payload")
+
+    def __init__(self, built=None, dec=None, err=None, diffs=(), payload=None):
+        self.built, self.dec, self.err, self.diffs, self.payload = built, dec, err, list(diffs), payload
+
+
+def decode_sent(kind, rec, payload):
+    """-> Msg: fields of the dict handed to the encoder, fields of the decoded payload, whole-message differences"""
+    built = FIELDS[kind](rec.last)
+    try:
+        d = rec.real.decode(payload)
+    except Exception as e:
+        return Msg(built, None, f"the payload handed to BTP is not a decodable UPER encoding ({type(e).__name__})", payload=payload)
+    return Msg(built, FIELDS[kind](d), None, tree_diff(rec.last, norm(d)), payload)
+
+
+class CamStation:
+    """ONE real CAM transmission management with a capturing BTP router"""
+
+    def __init__(self, coder, stype, role):
+        self.cap = Cap()
+        self.rec = RecCoder(coder)
+        self.vd = ctm.VehicleData(station_id=11, station_type=stype, vehicle_role=role)
+        self.tm = ctm.CAMTransmissionManagement(self.cap, self.rec, self.vd, None)
+        self.tm._active = True
+
+    def _collect(self, n0, what):
+        new = self.cap.sent[n0:]
+        if not new:
+            return Msg(None, None, what)
+        return decode_sent("cam", self.rec, new[0].data)
+
+    def attempt(self, tpv, now_ms):
+        """one generation attempt (`_generate_and_send_cam`)"""
+        n0 = len(self.cap.sent)
         try:
-            return built, fields(coder.decode(payload)), None
+            self.tm._generate_and_send_cam(tpv, now_ms, 1)
         except Exception as e:
-            return built, None, f"the payload handed to BTP is not a decodable UPER encoding ({type(e).__name__})"
+            return Msg(None, None, f"generation raised {type(e).__name__}")
+        return self._collect(n0, "generation skipped (construction / encoding failed, Annex B.2.5 path): no CAM for this attempt")
 
-    def cam(self, tpv, stype):
-        """-> (built dict fields | None, decoded fields | None, error)"""
-        cap = Cap()
-        vd = ctm.VehicleData(station_id=11, station_type=stype)
+    def report_and_tick(self, tpv):
+        """location service callback, then a T_CheckCamGen expiry"""
+        n0 = len(self.cap.sent)
         try:
-            m = ctm.CooperativeAwarenessMessage()
-            m.fullfill_with_vehicle_data(vd)
-            m.fullfill_with_tpv_data(tpv)
-            built = fields_cam(m.cam)
+            self.tm.location_service_callback(tpv)
+            self.tm._evaluate_and_maybe_send()
         except Exception as e:
-            return None, None, f"builder raised {type(e).__name__}"
-        tm = ctm.CAMTransmissionManagement(cap, self.cam_coder, vd, None)
-        tm._active = True
-        try:
-            tm._generate_and_send_cam(tpv, 1_700_000_000_000, 1)
-        except Exception as e:
-            return built, None, f"generation raised {type(e).__name__}"
-        if not cap.sent:
-            return built, None, "generation skipped (encoding failed, Annex B.2.5 path)"
-        return self._decoded(built, fields_cam, self.cam_coder, cap.sent[0].data)
+            return Msg(None, None, f"generation raised {type(e).__name__}")
+        return self._collect(n0, "no CAM at a T_CheckCamGen expiry more than T_GenCamMax after the previous CAM")
 
-    def vam(self, tpv, stype):
-        cap = Cap()
-        ddp = vtm.DeviceDataProvider(station_id=12, station_type=stype)
-        try:
-            m = vtm.VAMMessage()
-            m.fullfill_with_device_data(ddp)
-            m.fullfill_with_tpv_data(tpv)
-            built = fields_vam(m.vam)
-        except Exception as e:
-            return None, None, f"builder raised {type(e).__name__}"
-        tm = vtm.VAMTransmissionManagement(cap, self.vam_coder, ddp, None, None)
-        try:
-            tm.location_service_callback(tpv)      # first report after activation: must send
-        except Exception as e:
-            return built, None, f"generation raised {type(e).__name__}"
-        if not cap.sent:
-            return built, None, "no VAM for the first report"
-        return self._decoded(built, fields_vam, self.vam_coder, cap.sent[0].data)
 
-    def denm(self, tpv, stype):
-        cap = Cap()
+class VamStation:
+    def __init__(self, coder, stype, clustering=None):
+        self.cap = Cap()
+        self.rec = RecCoder(coder)
+        self.ddp = vtm.DeviceDataProvider(station_id=12, station_type=stype)
+        self.tm = vtm.VAMTransmissionManagement(self.cap, self.rec, self.ddp, None, clustering)
+
+    def report(self, tpv):
+        n0 = len(self.cap.sent)
+        try:
+            self.tm.location_service_callback(tpv)
+        except Exception as e:
+            return Msg(None, None, f"generation raised {type(e).__name__}")
+        new = self.cap.sent[n0:]
+        if not new:
+            return Msg(None, None, "no VAM for a report more than T_GenVam after the previous VAM")
+        return decode_sent("vam", self.rec, new[0].data)
+
+
+class DenmStation:
+    def __init__(self, coder, stype):
+        self.cap = Cap()
+        self.rec = RecCoder(coder)
         vd = ctm.VehicleData(station_id=13, station_type=stype)
-        tm = dtm.DENMTransmissionManagement(cap, self.denm_coder, vd)
-        built = {}
+        tm = dtm.DENMTransmissionManagement(self.cap, self.rec, vd)
 
         def once(request):     # one iteration of trigger_denm_messages, synchronously (no thread, no sleep)
             new_denm = dtm.DecentralizedEnvironmentalNotificationMessage()
             new_denm.fullfill_with_vehicle_data(vd)
             new_denm.fullfill_with_denrequest(request)
-            built.update(fields_denm(new_denm.denm))
             tm.transmit_denm(new_denm)
 
         tm.request_denm_sending = once
@@ -319,14 +428,46 @@ class Stack:
         class Den:
             denm_transmission_management = tm
 
+        self.svc = EmergencyVehicleApproachingService(Den())
+
+    def report(self, tpv):
+        n0 = len(self.cap.sent)
         try:
-            svc = EmergencyVehicleApproachingService(Den())
-            svc.trigger_denm_sending(tpv)
+            self.svc.trigger_denm_sending(tpv)
         except Exception as e:
-            return (built or None), None, f"generation raised {type(e).__name__}"
-        if not cap.sent:
-            return (built or None), None, "no DENM handed to BTP"
-        return self._decoded(built, fields_denm, self.denm_coder, cap.sent[0].data)
+            return Msg(None, None, f"generation raised {type(e).__name__}")
+        new = self.cap.sent[n0:]
+        if not new:
+            return Msg(None, None, "no DENM handed to BTP")
+        return decode_sent("denm", self.rec, new[0].data)
+
+
+class Stack:
+    def __init__(self):
+        self.cam_coder, self.vam_coder, self.denm_coder = CAMCoder(), VAMCoder(), DENMCoder()
+        for n in ("ca_basic_service", "vru_basic_service", "denm_service", "flexstack"):
+            logging.getLogger(n).setLevel(logging.CRITICAL + 10)
+        logging.getLogger(vcl.__name__).setLevel(logging.CRITICAL + 10)
+        self.role_enum = self._compiled_roles()
+
+    def _compiled_roles(self):
+        """names of the VehicleRole enumeration the CAM coder compiled, by value"""
+        try:
+            t = self.cam_coder.asn_coder.types["BasicVehicleContainerLowFrequency"]
+            for m in t.type.root_members:
+                if m.name == "vehicleRole":
+                    return [n for n, _ in sorted(m.root_data_to_index.items(), key=lambda kv: kv[1])]
+        except Exception:
+            pass
+        return list(CDD_VEHICLE_ROLES)
+
+    def one(self, kind, tpv, stype, role=0):
+        """a fresh station, one report -> Msg"""
+        if kind == "cam":
+            return CamStation(self.cam_coder, stype, role).attempt(tpv, T0)
+        if kind == "vam":
+            return VamStation(self.vam_coder, stype).report(tpv)
+        return DenmStation(self.denm_coder, stype).report(tpv)
 
 
 # ------------------------------------------------------------------------------------------------
@@ -365,104 +506,326 @@ def rand_value(rng, k):
     if k in ("epx", "epy"):
         return rng.choice([rng.uniform(0, 12), rng.uniform(0, 60), rng.uniform(0, 400), round(rng.uniform(0, 45), 3)])
     if k == "epv":
-        return rng.choice([rng.uniform(0, 3), rng.uniform(0, 60), rng.uniform(0, 400)])
+        return rng.choice([rng.uniform(0, 3), rng.uniform(0, 60), rng.uniform(0, 400), float(rng.choice([1, 2, 5, 10, 20, 50, 100, 200]))])
     if k == "epd":
         return rng.choice([rng.uniform(0, 0.3), rng.uniform(0, 14), rng.uniform(0, 400)])
     raise KeyError(k)
 
 
-def gen_report(rng, i):
-    tpv = {"class": "TPV", "mode": 3, "time": iso(1_700_000_000_000 + rng.randrange(0, 10**9))}
-    p_absent = rng.choice([0.0, 0.1, 0.5])
+def gen_report(rng, ms=None, p_absent=None):
+    tpv = {"class": "TPV", "mode": 3, "time": iso(ms if ms is not None else T0 + rng.randrange(0, 10**9))}
+    if p_absent is None:
+        p_absent = rng.choice([0.0, 0.1, 0.5])
     for k in KEYS:
         if rng.random() >= p_absent:
             tpv[k] = rand_value(rng, k)
     return tpv
 
 
+BASE = {"class": "TPV", "mode": 3, "time": iso(1_700_000_123_456), "lat": 41.3851234, "lon": 2.1734035, "altHAE": 163.5,
+        "epx": 8.754, "epy": 10.597, "epv": 31.97, "epd": 1.5, "track": 271.3, "speed": 13.89}
+
+
 def systematic_reports():
     """every single boundary value of every field on an otherwise plain report; every single-field omission; the empty report"""
-    base = {"class": "TPV", "mode": 3, "time": iso(1_700_000_123_456), "lat": 41.3851234, "lon": 2.1734035, "altHAE": 163.5,
-            "epx": 8.754, "epy": 10.597, "epv": 31.97, "epd": 1.5, "track": 271.3, "speed": 13.89}
-    out = [dict(base), {"class": "TPV", "mode": 1, "time": base["time"]}]
+    out = [dict(BASE), {"class": "TPV", "mode": 1, "time": BASE["time"]}]
     for k in KEYS:
-        t = dict(base)
+        t = dict(BASE)
         del t[k]
         out.append(t)
         for v in BOUNDARY[k]:
-            t = dict(base)
+            t = dict(BASE)
             t[k] = v
             out.append(t)
     for ex in BOUNDARY["epx"]:
         for ey in (0.004, 3.25, 40.94, 60.0):
-            out.append(dict(base, epx=ex, epy=ey))
+            out.append(dict(BASE, epx=ex, epy=ey))
     return out
 
 
+def gen_history(rng, n=None):
+    """reports of one receiver, one second apart, with VARYING field subsets (3D fix -> 2D fix -> position only ...):
+    each later report is a random subset, biased towards shrinking"""
+    n = n or rng.randrange(2, 6)
+    out = []
+    keep = set(KEYS)
+    lat, lon = rng.uniform(-89, 89), rng.uniform(-179, 179)
+    for i in range(n):
+        style = rng.random()
+        if i == 0 and style < 0.7:
+            keep = set(KEYS)                                  # start from a full fix
+        elif style < 0.45:
+            keep = {k for k in keep if rng.random() < 0.6}    # shrink
+        elif style < 0.7:
+            keep = {k for k in KEYS if rng.random() < 0.5}    # any subset
+        elif style < 0.85:
+            keep = set()                                      # nothing but the time
+        else:
+            keep = set(KEYS)
+        tpv = {"class": "TPV", "mode": 3, "time": None}
+        for k in KEYS:
+            if k in keep:
+                tpv[k] = rand_value(rng, k)
+        if rng.random() < 0.7:          # a moving station: small steps, so that the path history is exercised
+            lat += rng.uniform(-2e-4, 2e-4)
+            lon += rng.uniform(-2e-4, 2e-4)
+            if "lat" in tpv:
+                tpv["lat"] = max(-90.0, min(90.0, lat))
+            if "lon" in tpv:
+                tpv["lon"] = max(-180.0, min(180.0, lon))
+        out.append(tpv)
+    return out
+
+
+SYSTEMATIC_HISTORIES = [
+    # 3D fix, then 2D fix (altitude and its error estimate missing), then position only, then the full fix again
+    [dict(BASE), {k: v for k, v in BASE.items() if k not in ("altHAE", "epv")},
+     {"class": "TPV", "mode": 2, "lat": 41.3872, "lon": 2.1122}, dict(BASE, lat=41.3873)],
+    [dict(BASE), {"class": "TPV", "mode": 1}],
+    [dict(BASE), {"class": "TPV", "mode": 2, "lon": 3.0}],
+    [dict(BASE), {k: v for k, v in BASE.items() if k != "epx"}, {k: v for k, v in BASE.items() if k != "epy"}],
+    [{"class": "TPV", "mode": 2, "lat": 10.0, "lon": 20.0}, {"class": "TPV", "mode": 3, "altHAE": 7000.0, "speed": 3.0},
+     {"class": "TPV", "mode": 2, "track": 10.0, "epd": 0.05}],
+]
+
+
 # ------------------------------------------------------------------------------------------------
+# judging one message
 
 
-def judge(kind, tpv, stype, built, dec, err):
+def judge(kind, tpv, stype, role, msg, stack):
     """violations of the property for one message: [(what, finding-id)]"""
     out = []
-    if err:
-        return [(f"{kind.upper()} generation fails: {err}", None)]
+    if msg.err:
+        return [(f"{kind.upper()} generation fails: {msg.err}", None)]
+    built, dec = msg.built, msg.dec
     keys = ["lat", "lon", "alt"] if kind == "denm" else ORDER
     for k in keys:
         if built[k] != dec[k]:
             out.append((f"{kind.upper()} {k}: builder intended {built[k]}, the encoded payload decodes to {dec[k]} (value outside its ASN.1 constraint wrapped)", None))
+    for path, text in msg.diffs:
+        leaf = path.rsplit("/", 1)[-1]
+        if kind == "denm" and leaf in DENM_DROPPED_KEYS and "missing from the decoded payload" in text:
+            out.append((f"DENM {text}", F_DENM_KEYS))
+        elif not any(text in w for w, _ in out):
+            out.append((f"{kind.upper()} does not decode to the message built: {text}", None))
     if kind != "denm" and dec["stype"] != stype:
         out.append((f"{kind.upper()} stationType {stype} decodes to {dec['stype']}", None))
+    if kind == "cam" and dec["role"] is not None:
+        want = CDD_VEHICLE_ROLES[role]
+        if dec["role"] != want:
+            out.append((f"CAM vehicleRole of a station with role {role} ({want}) decodes to {dec['role']}", None))
     for b in oracle_fields(kind, tpv, dec):
         out.append((f"{kind.upper()} {b}", None))
     return out
 
 
-def check_reports(ctx, stack, reports, tag):
+def report_violations(ctx, viols, what_suffix, case):
+    for what, fid in [v for v in viols if v[1] is None][:2]:
+        ctx.violation(what + what_suffix, case, None)
+    seen = set()
+    for what, fid in viols:
+        if fid is not None and fid not in seen:      # once per message and known finding
+            seen.add(fid)
+            ctx.violation(what + what_suffix, case, fid)
+
+
+def present(tpv):
+    return dict((k, tpv[k]) for k in KEYS if k in tpv)
+
+
+def cover_fields(ctx, kind, dec):
+    if kind == "denm":
+        return
+    for k, code, name in (("alt", 800000, "alt_posOutOfRange"), ("alt", -100000, "alt_negOutOfRange"),
+                          ("speed", 16382, "speed_outOfRange"), ("hconf", 126, "hconf_outOfRange"),
+                          ("major", 4094, "axis_outOfRange"), ("hconf", 1, "hconf_floor"),
+                          ("heading", 0, "heading_zero"), ("altconf", "outOfRange", "altconf_outOfRange"),
+                          ("orient", 900, "ellipse_east_west"), ("orient", 0, "ellipse_north_south")):
+        if dec[k] == code:
+            ctx.cover(f"{kind}_{name}")
+
+
+def check_monotone(ctx, tpv):
+    """the explicit hypotheses `hmono` of heading_confidence_spec / ellipse_major_ge_minor_cam_vam / report_encodable, asserted
+    on every sample: the double products e*10, e*100 are monotone in e (and 12.5*10 = 125 exactly)"""
+    if "epd" in tpv and tpv["epd"] <= 12.5 and not tpv["epd"] * 10 <= 125:
+        ctx.mismatch("hypothesis-hmono", {"epd": tpv["epd"]}, tpv["epd"] * 10, "<= 125")
+    if "epx" in tpv and "epy" in tpv:
+        a, b = sorted((tpv["epx"], tpv["epy"]))
+        if not a * 100 <= b * 100:
+            ctx.mismatch("hypothesis-hmono", {"epx": tpv["epx"], "epy": tpv["epy"]}, (a * 100, b * 100), "monotone")
+
+
+class ModelBatch:
+    """all model lines of a run go through ONE driver process (start-up dominates); every segment that uses the driver's
+    state starts with `reset`"""
+
+    def __init__(self, ctx):
+        self.ctx, self.lines, self.handlers = ctx, [], []
+
+    def add(self, lines, handler):
+        if self.ctx.model_ok and lines:
+            self.handlers.append((len(self.lines), len(lines), handler))
+            self.lines += lines
+
+    def flush(self):
+        if not self.ctx.model_ok or not self.lines:
+            return
+        out = self.ctx.model("Mapping", self.lines)
+        for start, n, handler in self.handlers:
+            handler(out[start:start + n])
+        self.lines, self.handlers = [], []
+
+
+def check_reports(ctx, mb, stack, reports, tag):
+    """stateless: a fresh station per report and message kind"""
     lines, expect = [], []
     for i, tpv in enumerate(reports):
         stype = ctx.rng.randrange(0, 16)
-        present = tuple(k for k in KEYS if k in tpv)
-        ctx.cover(f"fields_present_{len(present)}")
-        for kind, fn in (("cam", stack.cam), ("vam", stack.vam), ("denm", stack.denm)):
-            built, dec, err = fn(tpv, stype)
+        role = ctx.rng.randrange(0, 16)
+        ctx.cover(f"fields_present_{len(present(tpv))}")
+        check_monotone(ctx, tpv)
+        for kind in ("cam", "vam", "denm"):
+            msg = stack.one(kind, tpv, stype, role)
             ctx.evals()
-            for what, fid in judge(kind, tpv, stype, built, dec, err)[:2]:
-                ctx.violation(what + f"  [report {dict((k, tpv[k]) for k in present)}]",
-                              {"kind": "report", "msg": kind, "tpv": tpv, "stype": stype}, fid)
-            if built is not None:
+            report_violations(ctx, judge(kind, tpv, stype, role, msg, stack),
+                              f"  [report {present(tpv)}; stationType {stype}" + (f", vehicleRole {role}]" if kind == "cam" else "]"),
+                              {"kind": "report", "msg": kind, "tpv": tpv, "stype": stype, "role": role})
+            if msg.built is not None:
                 lines.append(model_line(kind, tpv))
-                expect.append((kind, tpv, canon(kind, built)))
-            if dec is not None:
-                ctx.nontrivial((kind, canon(kind, dec)))
+                expect.append((kind, tpv, canon(kind, msg.built)))
+            if msg.dec is not None:
+                ctx.nontrivial((kind, canon(kind, msg.dec)))
+                cover_fields(ctx, kind, msg.dec)
                 if kind != "denm":
-                    for k, code, name in (("alt", 800000, "alt_posOutOfRange"), ("alt", -100000, "alt_negOutOfRange"),
-                                          ("speed", 16382, "speed_outOfRange"), ("hconf", 126, "hconf_outOfRange"),
-                                          ("major", 4094, "axis_outOfRange"), ("hconf", 1, "hconf_floor"),
-                                          ("heading", 0, "heading_zero"), ("altconf", "outOfRange", "altconf_outOfRange")):
-                        if dec[k] == code:
-                            ctx.cover(f"{kind}_{name}")
                     ctx.cover(f"{kind}_stationType_{stype}")
-        if i == 0:
-            ctx.sample("report", {"tpv": tpv, "cam": expect[-3][2] if len(expect) >= 3 else None})
-    if ctx.model_ok and lines:
-        out = ctx.model("Mapping", lines)
+                if kind == "cam":
+                    ctx.cover(f"cam_role_{role}")
+        if i == 0 and len(expect) >= 3:
+            ctx.sample("report", {"tpv": tpv, "cam": expect[-3][2]})
+    def compare(out):
         for (kind, tpv, real), mo in zip(expect, out):
             if real != mo:
                 ctx.mismatch(f"mapping/{kind}/{tag}", {"tpv": tpv}, real, mo)
+    mb.add(lines, compare)
 
 
-def check_gdt(ctx, n, extra=()):
+def run_history(stack, kind, hist, stype, role, clk):
+    """the reports of `hist` on ONE station, one second apart -> [(tpv with time, Msg)]"""
+    st = {"cam": lambda: CamStation(stack.cam_coder, stype, role), "vam": lambda: VamStation(stack.vam_coder, stype),
+          "denm": lambda: DenmStation(stack.denm_coder, stype)}[kind]()
+    out = []
+    for tpv in hist:
+        clk.advance(1001 + (7 * len(out)) % 50)
+        tpv = dict(tpv, time=iso(clk.ms))
+        msg = st.report_and_tick(tpv) if kind == "cam" else st.report(tpv)
+        out.append((tpv, msg))
+    return out
+
+
+def check_histories(ctx, mb, stack, hists, clk, tag):
+    lines, expect = [], []
+    for hi, hist in enumerate(hists):
+        stype = ctx.rng.randrange(0, 16)
+        role = ctx.rng.randrange(0, 16)
+        ctx.cover(f"history_len_{len(hist)}")
+        for kind in ("cam", "vam", "denm"):
+            res = run_history(stack, kind, hist, stype, role, clk)
+            lines.append("reset")
+            expect.append(None)
+            for i, (tpv, msg) in enumerate(res):
+                ctx.evals()
+                shrunk = i > 0 and not set(present(tpv)) >= set(present(res[i - 1][0]))
+                if shrunk:
+                    ctx.cover(f"{kind}_history_fields_dropped")
+                report_violations(
+                    ctx, judge(kind, tpv, stype, role, msg, stack),
+                    f"  [report #{i + 1} of a history of {len(hist)} on one {'transmission management' if kind != 'denm' else 'service'}: {present(tpv)}"
+                    + (f"; previous report: {present(res[i - 1][0])}]" if i else "]"),
+                    {"kind": "history", "msg": kind, "reports": [t for t, _ in res], "stype": stype, "role": role})
+                if kind == "cam":
+                    lines += ["camrep " + report_tokens(tpv), "camtick"]
+                    expect += [("ok", kind, tpv), (canon(kind, msg.built) if msg.built else "no-message", kind, tpv)]
+                elif kind == "vam":
+                    lines.append(model_line("vam", tpv))
+                    expect.append((canon(kind, msg.built) if msg.built else "no-message", kind, tpv))
+                else:
+                    lines.append("denmrep " + report_tokens(tpv))
+                    expect.append((canon(kind, msg.built) if msg.built else "no-message", kind, tpv))
+                if msg.dec is not None:
+                    ctx.nontrivial((kind, canon(kind, msg.dec)))
+                    cover_fields(ctx, kind, msg.dec)
+                    if kind == "cam" and i > 0 and msg.dec["role"] is not None:
+                        ctx.cover("cam_lf_container_in_later_cam")
+        if hi == 0:
+            ctx.sample("history", {"reports": [present(t) for t in hist]})
+    def compare(out):
+        for e, mo in zip(expect, out):
+            if e is not None and e[0] != mo:
+                ctx.mismatch(f"history/{e[1]}/{tag}", {"tpv": e[2]}, e[0], mo)
+    mb.add(lines, compare)
+
+
+def check_roles(ctx, mb, stack, clk, rounds=1):
+    """every vehicle role: several generation attempts on ONE transmission management; no attempt may be skipped, the
+    low-frequency container must carry the role; sequence compared with the model's send state"""
+    lines, expect = [], []
+    for rnd in range(rounds):
+        for role in range(16):
+            stype = ctx.rng.randrange(0, 16)
+            gaps = [0] + [ctx.rng.choice([100, 200, 400, 499, 500, 600, 1000]) for _ in range(3 + rnd)]
+            st = CamStation(stack.cam_coder, stype, role)
+            tpv = gen_report(ctx.rng, clk.ms, 0.1)
+            lines.append("reset")
+            expect.append(None)
+            now = clk.ms
+            seq = []
+            for g in gaps:
+                now += g
+                clk.ms = now
+                msg = st.attempt(dict(tpv, time=iso(now)), now)
+                ctx.evals()
+                seq.append(now)
+                case = {"kind": "roles", "role": role, "stype": stype, "tpv": tpv, "times": list(seq)}
+                report_violations(ctx, judge("cam", tpv, stype, role, msg, stack),
+                                  f"  [vehicle role {role} ({CDD_VEHICLE_ROLES[role]}), generation attempt #{len(seq)} on one transmission management]", case)
+                real = "skipped" if msg.err else "sent " + (msg.dec["role"] if msg.dec and msg.dec["role"] is not None else "-")
+                lines.append(f"tx {role} {now}")
+                expect.append((real, role))
+                ctx.cover(f"role_{role}_{'sent' if not msg.err else 'skipped'}")
+            ctx.nontrivial(("role", role, tuple(gaps)))
+    for r in range(16):
+        lines.append(f"role {r}")
+        expect.append((f"{stack.role_enum[r] if r < len(stack.role_enum) else '?'} {r}", r))
+    def compare(out):
+        for e, mo in zip(expect, out):
+            if e is not None and e[0] != mo:
+                ctx.mismatch("roles", {"role": e[1]}, e[0], mo)
+    mb.add(lines, compare)
+
+
+# ------------------------------------------------------------------------------------------------
+# generationDeltaTime, sender and receiver side
+
+AGES = (0, 1, 2, 65000, 65534, 65535)
+
+
+def wrap_base(base=T0):
+    """the first instant >= base whose generationDeltaTime is 0"""
+    return base + (65536 - ((base - ITS_EPOCH_MS + LEAP_MS) % 65536)) % 65536
+
+
+def check_gdt(ctx, mb, n, extra=()):
     G = ctm.GenerationDeltaTime
-    stamps = list(extra) + [1_700_000_000_123, 2172654871173, 2187050824983, 1085657168896, ITS_EPOCH_MS - LEAP_MS, ITS_EPOCH_MS]
+    stamps = list(extra) + [1_700_000_000_123, 2172654871173, 2172654871002, 2187050824983, 1085657168896, ITS_EPOCH_MS - LEAP_MS, ITS_EPOCH_MS]
     eras = [(1_600_000_000_000, 1_900_000_000_000), (2_147_000_000_000, 2_200_000_000_000), (ITS_EPOCH_MS, 4_102_444_800_000)]
     for _ in range(n):
         lo, hi = ctx.rng.choice(eras)
         stamps.append(ctx.rng.randrange(lo, hi))
-    for k in range(0, 300):        # around a wrap of generationDeltaTime
-        base = 1_700_000_000_000
-        base += 65536 - ((base - ITS_EPOCH_MS + LEAP_MS) % 65536)
-        stamps.append(base - 150 + k)
+    for base in (wrap_base(), wrap_base(2_172_000_000_000)):
+        for k in range(-150, 150):        # around a wrap of generationDeltaTime (gdt 65535 -> 0)
+            stamps.append(base + k)
     lines, reals = [], []
     for g in stamps:
         want = (g - ITS_EPOCH_MS + LEAP_MS) % 65536
@@ -473,23 +836,291 @@ def check_gdt(ctx, n, extra=()):
                           {"kind": "gdt", "ms": g})
         lines.append(f"gdt {g}")
         reals.append(str(got))
-        # receiver side: any reception time within 65 s after generation reconstructs the generation time
-        for age in (0, 1, ctx.rng.randrange(0, 65536), 65000, 65535):
+        lines.append(f"ms {fr((g / 1000) * 1_000_000)}")          # the model's reading of the same float of seconds
+        reals.append(("ms", got))
+        if len(stamps) and ctx.rng.random() < 0.1:                 # a timestamp between two milliseconds
+            t = (g + ctx.rng.choice([0.25, 0.5, 0.75, 0.999])) / 1000
+            lines.append(f"ms {fr(t * 1_000_000)}")
+            reals.append(("ms", G.from_timestamp(t).msec))
+            ctx.cover("gdt_sub_millisecond_stamps")
+        if want in (0, 65535):
+            ctx.cover(f"gdt_value_{want}")
+        # receiver side: any reception time within 65.536 s after generation reconstructs the generation time
+        for age in AGES + (ctx.rng.randrange(0, 65536),):
             rx = g + age
             rec = G(msec=want).as_timestamp_in_certain_point(rx)
             ctx.evals()
+            if age in (0, 1, 65535):
+                ctx.cover(f"rec_age_{age}")
             if rec != g:
-                ctx.violation(f"receiver at {rx} ms reconstructs {rec} from generationDeltaTime {want}, generated at {g} (age {age} ms)",
+                ctx.violation(f"receiver at {rx} ms reconstructs {rec} from generationDeltaTime {want}, generated at {g} (age {age} ms, error {rec - g} ms)",
                               {"kind": "rec", "ms": g, "age": age})
             lines.append(f"rec {want} {rx}")
             reals.append(str(int(rec)))
         ctx.nontrivial(("gdt", want))
     ctx.cover("gdt_stamps", len(stamps))
-    if ctx.model_ok:
-        for ln, r, mo in zip(lines, reals, ctx.model("Mapping", lines)):
+    def compare(out):
+        for ln, r, mo in zip(lines, reals, out):
+            if isinstance(r, tuple):        # model's millisecond -> its generationDeltaTime must be the real one
+                mo, r = str((int(mo) - ITS_EPOCH_MS + LEAP_MS) % 65536), str(r[1])
             if r != mo:
                 ctx.mismatch("gdt", ln, r, mo)
+    mb.add(lines, compare)
 
+
+def rx_once(stack, kind, g, age, clk):
+    """a CAM / VAM generated at UTC ms `g` (clock and report time), its payload handed to the real reception management
+    when the clock shows g + age -> (reconstructed utc_timestamp | None, error, clock reading tokens)"""
+    tpv = {"class": "TPV", "mode": 3, "time": iso(g), "lat": 41.0, "lon": 2.0, "speed": 1.0}
+    clk.ms = g
+    msg = stack.one(kind, tpv, 5 if kind == "cam" else 1, 0)
+    if msg.err or msg.payload is None:
+        return None, msg.err or "no payload"
+    got = []
+    try:
+        if kind == "cam":
+            rx = crm.CAMReceptionManagement(stack.cam_coder, Cap(), None)
+            rx.add_application_callback(lambda cam: got.append(cam["utc_timestamp"]))
+            clk.ms = g + age
+            rx.reception_callback(BTPDataIndication(data=msg.payload, length=len(msg.payload)))
+        else:
+            class Ldm:
+                def add_provider_data_to_ldm(self, vam):
+                    got.append(vam["utc_timestamp"])
+            rx = vrm.VAMReceptionManagement(stack.vam_coder, Cap(), Ldm(), None)
+            clk.ms = g + age
+            rx.reception_callback(BTPDataIndication(data=msg.payload, length=len(msg.payload)))
+    except Exception as e:
+        return None, f"reception raised {type(e).__name__}"
+    if not got:
+        return None, "the reception management delivered nothing"
+    return int(got[0]), None
+
+
+def check_rx(ctx, mb, stack, clk, n, extra=()):
+    """the real reception path: the receiver's own clock reading is inside the tie"""
+    stamps = [2172654871002, 2172654871005, T0, wrap_base(), wrap_base() - 1] + [c for c in extra]
+    eras = [(1_600_000_000_000, 1_900_000_000_000), (2_147_000_000_000, 2_200_000_000_000)]
+    for _ in range(n):
+        lo, hi = ctx.rng.choice(eras)
+        stamps.append(ctx.rng.randrange(lo, hi))
+    lines, reals = [], []
+    for i, g in enumerate(stamps):
+        for kind in ("cam", "vam"):
+            for age in (0, 1, 65535) if i < 8 else (0, ctx.rng.choice([1, 65535, ctx.rng.randrange(0, 65536)])):
+                rec, err = rx_once(stack, kind, g, age, clk)
+                ctx.evals()
+                ctx.cover(f"rx_{kind}")
+                case = {"kind": "rx", "msg": kind, "ms": g, "age": age}
+                if err:
+                    ctx.violation(f"{kind.upper()} generated at {g} ms, received {age} ms later: {err}", case)
+                    continue
+                if rec != g:
+                    ctx.violation(f"{kind.upper()} generated at UTC {g} ms ({iso(g)}) and received {age} ms later: the reception management "
+                                  f"reconstructs generation time {rec} ms (error {rec - g} ms)", case)
+                r = g + age
+                t = r / 1000.0
+                lines.append(f"rxrec {kind} {(g - ITS_EPOCH_MS + LEAP_MS) % 65536} {fr(t * 1000)} {fr(t * 1_000_000)}")
+                reals.append(str(rec))
+
+    def compare(out):
+        for ln, r, mo in zip(lines, reals, out):
+            if r != mo:
+                ctx.mismatch("rx", ln, r, mo)
+    mb.add(lines, compare)
+
+
+# ------------------------------------------------------------------------------------------------
+# the model of asn1tools' constrained-INTEGER encoding vs asn1tools
+
+UPER_FIELDS = [("lat", -900000000, 900000001), ("lon", -1800000000, 1800000001), ("major", 0, 4095), ("minor", 0, 4095),
+               ("orient", 0, 3601), ("alt", -100000, 800001), ("heading", 0, 3601), ("hconf", 1, 127), ("speed", 0, 16383),
+               ("gdt", 0, 65535), ("stype", 0, 255), ("radius", 0, 4095), ("card", 0, 255), ("one", 5, 5)]
+_UPER = []
+
+
+def uper_spec():
+    if not _UPER:
+        import asn1tools
+        body = ", ".join(f"{n} INTEGER ({lo}..{hi})" for n, lo, hi in UPER_FIELDS)
+        _UPER.append(asn1tools.compile_string(f"M DEFINITIONS AUTOMATIC TAGS ::= BEGIN S ::= SEQUENCE {{ {body} }} END", codec="uper"))
+    return _UPER[0]
+
+
+def check_uper(ctx, mb, n):
+    """`encodeInts` (Lean) against asn1tools on a SEQUENCE of constrained INTEGERs with the ranges of the data elements:
+    in-range values (the theorem's case) and one value above its constraint (the witness' case: no check, spills over)"""
+    spec = uper_spec()
+    lines, reals = [], []
+    for i in range(n):
+        vals = {}
+        over = ctx.rng.randrange(1, len(UPER_FIELDS)) if i % 4 == 3 else None   # (not the first field: nothing to spill into)
+        for j, (name, lo, hi) in enumerate(UPER_FIELDS):
+            r = ctx.rng.random()
+            vals[name] = lo if r < 0.15 else hi if r < 0.3 else ctx.rng.randint(lo, hi)
+            if j == over:
+                vals[name] = hi + ctx.rng.choice([1, 2, 905, (hi - lo + 1), 3 * (hi - lo + 1) + 7])
+        try:
+            enc = spec.encode("S", vals)
+        except Exception as e:
+            raise Infra(f"asn1tools refused the synthetic SEQUENCE: {type(e).__name__}: {e}")
+        ctx.evals()
+        ctx.cover("uper_overflow_cases" if over is not None else "uper_in_range_cases")
+        if over is None and spec.decode("S", enc) != vals:
+            ctx.violation(f"asn1tools does not round-trip in-range constrained integers {vals}", {"kind": "uper", "vals": vals})
+        lines.append("uper " + " ".join(f"{lo}:{hi}:{vals[name]}" for name, lo, hi in UPER_FIELDS))
+        reals.append(bytes(enc).hex())
+    def compare(out):
+        for ln, real, mo in zip(lines, reals, out):
+            value, nb = (int(x) for x in mo.split())
+            pad = (8 - nb % 8) % 8
+            got = hex((value << pad) | (0x80 << (nb + pad)))[4:] if nb else ""     # Encoder.as_bytearray
+            if got != real:
+                ctx.mismatch("uper", ln, real, got)
+    mb.add(lines, compare)
+
+
+# ------------------------------------------------------------------------------------------------
+# cluster information container under concurrency (dsched)
+
+
+class _FixedRandom:
+    def __init__(self, v):
+        self.v = v
+
+    def randint(self, a, b):
+        return self.v
+
+    def __getattr__(self, n):
+        return getattr(_random, n)
+
+
+def _neighbour_vam(coder, sid, lat, lon, g):
+    m = vtm.VAMMessage()
+    m.fullfill_with_device_data(vtm.DeviceDataProvider(station_id=sid, station_type=1))
+    m.fullfill_with_tpv_data({"time": iso(g), "lat": lat, "lon": lon, "speed": 1.0, "track": 90.0})
+    return coder.decode(coder.encode(m.vam))
+
+
+CLUSTER_VARIANTS = ("breakup", "role_off", "steady")
+
+
+def cluster_run(stack, variant, policy, cid=77):
+    """the VRU is cluster leader; thread `tx` handles a position report (-> VAM with the cluster containers) while thread
+    `upd` runs the maintenance step that completes the break-up (variant breakup), switches the VRU role off (role_off) or
+    changes nothing (steady).  -> (sched, outcome dict)"""
+    now = [1000.0]
+    saved = vcl.random
+    vcl.random = _FixedRandom(cid)
+    cap = Cap()
+    try:
+        with dsched.patched([vcl, vtm]):
+            cm = vcl.VBSClusteringManager(own_station_id=12, time_fn=lambda: now[0])
+            for k in range(3):
+                cm.on_received_vam(_neighbour_vam(stack.vam_coder, 100 + k, 41.0 + 1e-6 * k, 2.0, T0))
+            if not cm.try_create_cluster(41.0, 2.0):
+                raise Infra("cluster scenario: try_create_cluster refused")
+            if variant == "breakup":
+                if not cm.trigger_breakup_cluster():
+                    raise Infra("cluster scenario: trigger_breakup_cluster refused")
+                now[0] += 3.0            # the warning period is over: the next update() disbands the cluster
+            rec = RecCoder(stack.vam_coder)
+            tm = vtm.VAMTransmissionManagement(cap, rec, vtm.DeviceDataProvider(station_id=12, station_type=1), None, cm)
+            tpv = {"class": "TPV", "mode": 3, "time": iso(T0 + 3000), "lat": 41.0, "lon": 2.0, "speed": 1.0, "track": 90.0}
+            M = vcl.VBSClusteringManager
+            sched = dsched.DSched(policy, line_files={vcl.__file__},
+                                  opcode_codes={M.get_cluster_information_container.__code__, M.get_cluster_operation_container.__code__,
+                                                M.should_transmit_vam.__code__}, max_steps=60000)
+            tx = sched.spawn(lambda: tm.location_service_callback(tpv), "tx")
+            if variant == "role_off":
+                upd = sched.spawn(cm.set_vru_role_off, "upd")
+            else:
+                upd = sched.spawn(lambda: cm.update(41.0, 2.0, 1.0, 90.0), "upd")
+            sched.run(timeout=60)
+    finally:
+        vcl.random = saved
+    out = {"tx_exc": type(tx.exc).__name__ + ": " + str(tx.exc) if tx.exc else None,
+           "upd_exc": type(upd.exc).__name__ + ": " + str(upd.exc) if upd.exc else None,
+           "sent": len(cap.sent), "abort": sched.abort_reason, "info": None, "diffs": []}
+    if cap.sent:
+        try:
+            d = stack.vam_coder.decode(cap.sent[0].data)
+            out["diffs"] = [t for _, t in tree_diff(rec.last, norm(d))]
+            ci = d["vam"]["vamParameters"].get("vruClusterInformationContainer")
+            if ci is not None:
+                ci = ci["vruClusterInformation"]
+                shape = ci.get("clusterBoundingBoxShape")
+                out["info"] = [ci.get("clusterId"), shape[1].get("radius") if shape and shape[0] == "circular" else None,
+                               ci.get("clusterCardinalitySize")]
+        except Exception as e:
+            out["tx_exc"] = out["tx_exc"] or f"undecodable VAM ({type(e).__name__})"
+    return sched, out
+
+
+def cluster_judge(variant, out, cid=77):
+    """the report must produce one VAM; its cluster information container is a consistent snapshot: the cluster as it
+    was (id, radius 5 m, cardinality 1) or - when the maintenance step won - no container (role_off: no VAM at all is
+    also legitimate, a VRU-IDLE station does not transmit)"""
+    bad = []
+    if out["abort"]:
+        bad.append(f"schedule aborted: {out['abort']}")
+    if out["tx_exc"]:
+        bad.append(f"VAM generation failed for the report: {out['tx_exc']}")
+    if out["upd_exc"]:
+        bad.append(f"maintenance step raised {out['upd_exc']}")
+    if not out["tx_exc"]:
+        if out["sent"] == 0 and variant != "role_off":
+            bad.append("no VAM handed to BTP for the report")
+        if out["sent"] > 1:
+            bad.append(f"{out['sent']} VAMs for one report")
+        if out["info"] is not None and out["info"] != [cid, 5, 1]:
+            bad.append(f"cluster information container {out['info']} is not the leader's cluster (id {cid}, radius 5, cardinality 1)")
+        if out["info"] is None and out["sent"] and variant == "steady":
+            bad.append("cluster leader sent a VAM without the cluster information container")
+        for t in out["diffs"]:
+            bad.append(f"VAM does not decode to the message built: {t}")
+    return bad
+
+
+def check_cluster(ctx, mb, stack, bound, cap_runs, n_pct=0, variants=CLUSTER_VARIANTS):
+    outcomes = set()
+    for variant in variants:
+        def once(prefix, variant=variant):
+            sched, out = cluster_run(stack, variant, dsched.Replay(prefix))
+            ctx.evals()
+            ctx.cover(f"cluster_{variant}_schedules")
+            ctx.cover("cluster_preemptions_%d" % min(dsched.preemptions(sched.steps), 3))
+            bad = cluster_judge(variant, out)
+            if bad:
+                ctx.violation(f"cluster {variant}: {bad[0]}  [threads: tx = location_service_callback(report) on a cluster leader, "
+                              f"upd = {'set_vru_role_off()' if variant == 'role_off' else 'update()'}; schedule {[s[0] for s in sched.steps]}]",
+                              {"kind": "cluster", "variant": variant, "schedule": [s[0] for s in sched.steps]})
+            key = "fail" if out["tx_exc"] else ("absent" if out["info"] is None else "info " + " ".join(map(str, out["info"])))
+            outcomes.add((variant, key))
+            ctx.nontrivial(("cluster", variant, key, out["sent"]))
+            return sched.steps
+        runs, exhausted = dsched.enumerate_schedules(once, bound, cap_runs, ctx.rng)
+        ctx.cover(f"cluster_{variant}_exhausted_bound{bound}" if exhausted else f"cluster_{variant}_capped")
+        for i in range(n_pct):
+            sched, out = cluster_run(stack, variant, dsched.PCT(ctx.rng, depth=2 + i % 3, est_steps=120))
+            ctx.evals()
+            bad = cluster_judge(variant, out)
+            if bad:
+                ctx.violation(f"cluster {variant}: {bad[0]}  [schedule {[s[0] for s in sched.steps]}]",
+                              {"kind": "cluster", "variant": variant, "schedule": [s[0] for s in sched.steps]})
+    # the model's outcomes over all its schedules of the two threads
+    scheds = ["1", "01", "10", "101", "011", "110", "0", "11"]
+    lines = [f"conc 1 1 77 5 1 {s}" for s in scheds]
+
+    def compare(out):
+        allowed = {"breakup": set(out), "role_off": set(out), "steady": {out[0]}}
+        for variant, key in sorted(outcomes):
+            if key not in allowed[variant]:
+                ctx.mismatch("cluster", {"variant": variant}, key, sorted(allowed[variant]))
+    mb.add(lines, compare)
+
+
+# ------------------------------------------------------------------------------------------------
 
 _STACK = []
 
@@ -500,31 +1131,70 @@ def stack():
     return _STACK[0]
 
 
+def corpus_cases():
+    return [c.get("case", c) for _, c in corpus("C11")]
+
+
+def check_corpus_replays(ctx, corp):
+    """saved witnesses of the kinds that are not plain reports / histories: re-run through `replay`"""
+    import contextlib
+    import io
+    for c in corp:
+        if c.get("kind") in ("roles", "rx", "rec", "cluster"):
+            with contextlib.redirect_stdout(io.StringIO()) as buf:
+                bad = replay(ctx, {"case": c})
+            ctx.evals()
+            ctx.cover(f"corpus_{c['kind']}")
+            if bad:
+                last = [ln for ln in buf.getvalue().split("\n") if ln.strip()]
+                ctx.violation(f"saved witness ({c['kind']}) reproduces: {last[0] if last else ''}", c)
+
+
 def run(ctx):
-    ctx.extra["rule"] = ("reports over the stated ranges (each of 9 optional fields present/absent, 25% boundary values per "
-                         "field) through the real CAM, VAM and DENM sending paths; every boundary value of every field and every "
-                         "single omission systematically; distinct_nontrivial counts distinct decoded field tuples per message kind")
+    ctx.extra["rule"] = ("reports over the stated ranges (each of 9 optional fields present/absent, 25% boundary values per field) "
+                         "through the real CAM, VAM and DENM sending paths, stateless (fresh station) and as histories of 2-5 reports "
+                         "with varying field subsets on one station; all 16 station types x all 16 vehicle roles; every boundary value "
+                         "and every single omission systematically; generationDeltaTime over three eras, ages 0/1/65535, through the "
+                         "real reception managements; the cluster container under all schedules up to the pre-emption bound; "
+                         "distinct_nontrivial counts distinct decoded field tuples / outcomes")
     st = stack()
-    with rs.VClock(1_700_000_000_000):
-        corp = [c.get("case", c) for _, c in corpus("C11")]
-        reps = [c["tpv"] for c in corp if c.get("kind") == "report"]
+    mb = ModelBatch(ctx)
+    with rs.VClock(T0) as clk:
+        corp = corpus_cases()
         ctx.cover("corpus_cases", len(corp))
-        check_reports(ctx, st, reps, "corpus")
-        check_reports(ctx, st, systematic_reports(), "systematic")
-        n = ctx.scale(5000, 400000)
-        check_reports(ctx, st, [gen_report(ctx.rng, i) for i in range(n)], "random")
-        check_gdt(ctx, ctx.scale(3000, 200000), [c["ms"] for c in corp if c.get("kind") == "gdt"])
+        check_reports(ctx, mb, st, [c["tpv"] for c in corp if c.get("kind") == "report"], "corpus")
+        check_corpus_replays(ctx, [c for c in corp if c.get("kind") != "cluster"])
+        check_histories(ctx, mb, st, [c["reports"] for c in corp if c.get("kind") == "history"] + SYSTEMATIC_HISTORIES, clk, "corpus")
+        check_reports(ctx, mb, st, systematic_reports(), "systematic")
+        check_reports(ctx, mb, st, [gen_report(ctx.rng) for _ in range(ctx.scale(1500, 150000))], "random")
+        check_histories(ctx, mb, st, [gen_history(ctx.rng) for _ in range(ctx.scale(250, 15000))], clk, "random")
+        check_roles(ctx, mb, st, clk, ctx.scale(1, 30))
+        check_gdt(ctx, mb, ctx.scale(1500, 100000), [c["ms"] for c in corp if c.get("kind") in ("gdt", "rec")])
+        check_rx(ctx, mb, st, clk, ctx.scale(40, 5000), [c["ms"] for c in corp if c.get("kind") == "rx"])
+    check_uper(ctx, mb, ctx.scale(300, 20000))
+    check_corpus_replays(ctx, [c for c in corpus_cases() if c.get("kind") == "cluster"])
+    check_cluster(ctx, mb, st, ctx.scale(1, 2), ctx.scale(400, 6000), ctx.scale(0, 300))
+    mb.flush()
 
 
 def search(ctx):
     st = stack()
     ok = ctx.model_ok
     ctx.model_ok = False
+    mb = ModelBatch(ctx)
     try:
-        with rs.VClock(1_700_000_000_000):
-            check_reports(ctx, st, systematic_reports(), "search-systematic")
-            check_reports(ctx, st, [gen_report(ctx.rng, i) for i in range(ctx.scale(15000, 390000))], "search")
-            check_gdt(ctx, ctx.scale(9000, 600000))
+        with rs.VClock(T0) as clk:
+            check_histories(ctx, mb, st, SYSTEMATIC_HISTORIES, clk, "search-systematic")
+            check_roles(ctx, mb, st, clk, 2)
+            check_gdt(ctx, mb, ctx.scale(4000, 200000))
+            check_rx(ctx, mb, st, clk, ctx.scale(200, 10000))
+            check_reports(ctx, mb, st, systematic_reports(), "search-systematic")
+            if not ctx.violations:
+                check_histories(ctx, mb, st, [gen_history(ctx.rng) for _ in range(ctx.scale(800, 30000))], clk, "search")
+            if not ctx.violations:
+                check_reports(ctx, mb, st, [gen_report(ctx.rng) for _ in range(ctx.scale(6000, 200000))], "search")
+        if not ctx.violations:
+            check_cluster(ctx, mb, st, 2, ctx.scale(1500, 20000), ctx.scale(60, 1000))
     finally:
         ctx.model_ok = ok
 
@@ -532,29 +1202,67 @@ def search(ctx):
 def replay(ctx, obj):
     case = obj.get("case", obj)
     st = stack()
-    with rs.VClock(1_700_000_000_000):
-        if case.get("kind") == "report":
+    kind = case.get("kind")
+    with rs.VClock(T0) as clk:
+        if kind == "report":
             bad = []
-            for kind, fn in (("cam", st.cam), ("vam", st.vam), ("denm", st.denm)):
-                if case.get("msg") not in (None, kind):
+            for k in ("cam", "vam", "denm"):
+                if case.get("msg") not in (None, k):
                     continue
-                built, dec, err = fn(case["tpv"], case.get("stype", 5))
-                v = judge(kind, case["tpv"], case.get("stype", 5), built, dec, err)
+                stype, role = case.get("stype", 5), case.get("role", 0)
+                v = judge(k, case["tpv"], stype, role, st.one(k, case["tpv"], stype, role), st)
+                v = [(w, f) for w, f in v if f is None]
                 for what, _ in v:
                     print(what)
                 bad += v
             print(f"{len(bad)} violations on this report")
             return bool(bad)
-        if case.get("kind") == "gdt":
+        if kind == "history":
+            bad = []
+            stype, role = case.get("stype", 5), case.get("role", 0)
+            for k in ("cam", "vam", "denm"):
+                if case.get("msg") not in (None, k):
+                    continue
+                for i, (tpv, msg) in enumerate(run_history(st, k, case["reports"], stype, role, clk)):
+                    for what, f in judge(k, tpv, stype, role, msg, st):
+                        if f is None:
+                            print(f"report #{i + 1} {present(tpv)}: {what}")
+                            bad.append(what)
+            print(f"{len(bad)} violations on this history")
+            return bool(bad)
+        if kind == "roles":
+            stn = CamStation(st.cam_coder, case.get("stype", 5), case["role"])
+            bad = []
+            for now in case["times"]:
+                clk.ms = now
+                msg = stn.attempt(dict(case["tpv"], time=iso(now)), now)
+                for what, f in judge("cam", case["tpv"], case.get("stype", 5), case["role"], msg, st):
+                    if f is None:
+                        print(f"attempt at {now}: {what}")
+                        bad.append(what)
+            print(f"{len(stn.cap.sent)} CAMs for {len(case['times'])} generation attempts, {len(bad)} violations")
+            return bool(bad)
+        if kind == "gdt":
             g = case["ms"]
             got = ctm.GenerationDeltaTime.from_timestamp(g / 1000).msec
             want = (g - ITS_EPOCH_MS + LEAP_MS) % 65536
             print(f"gdt({g}) = {got}, expected {want}")
             return got != want
-        if case.get("kind") == "rec":
+        if kind == "rec":
             g, age = case["ms"], case["age"]
             want = (g - ITS_EPOCH_MS + LEAP_MS) % 65536
             rec = ctm.GenerationDeltaTime(msec=want).as_timestamp_in_certain_point(g + age)
-            print(f"reconstructed {rec}, generated {g}")
+            print(f"reconstructed {rec}, generated {g} (age {age} ms)")
             return rec != g
-    raise Infra(f"unknown replay kind {case.get('kind')}")
+        if kind == "rx":
+            rec, err = rx_once(st, case["msg"], case["ms"], case["age"], clk)
+            print(f"{case['msg']} generated {case['ms']}, received {case['age']} ms later: reconstructed {rec} {err or ''}")
+            return err is not None or rec != case["ms"]
+    if kind == "cluster":
+        sched, out = cluster_run(st, case["variant"], dsched.Replay(case.get("schedule", [])))
+        bad = cluster_judge(case["variant"], out)
+        for b in bad:
+            print(b)
+        print(f"outcome {out}")
+        return bool(bad)
+    raise Infra(f"unknown replay kind {kind}")
